@@ -46,6 +46,12 @@ Theorem C01_exit_status : forall q root fs fuel script vars env ts,
   match snd (run_tasks q root fs fuel ts (("rash"%string, builtins root script) :: vars ++ env)) with Ok _ => true | Fail => false end.
 Proof. exact main_exit_status. Qed.
 
+(* with the property-text switches, "only a task WITHOUT ignore_errors can end the run" holds for every
+   kind of failure (rendering vars / when / parameters / loop / changed_when, the module, an include) *)
+Theorem C01_spec_only_unignored_tasks_end_the_run : forall root fs run_inc t st evs,
+  exec_task spec_quirks root fs run_inc t st = (evs, Fail) -> t_ignore t = false.
+Proof. exact spec_only_unignored_tasks_end_the_run. Qed.
+
 (* the full statement "only a failure without ignore_errors ends the run" is false of the code: K5 *)
 Theorem C01_ignore_covers_render_failures_refuted_K5 :
   let t1 := {| t_when := None; t_loop := None; t_register := None; t_vars := []; t_ignore := true;
